@@ -92,8 +92,10 @@ pub fn run(tier: Tier) -> i32 {
     rep.set_rule("SCOPE: lattice of stationary mel-cepstra: vector lengths {2,3,4,5,10,25,35,40} x alpha {0,.3,.42,.55,.6} x c0 {-1,0,2} x shape patterns (each single coefficient +-, each adjacent pair, full {-1,0,1} product for length<=4) scaled to max|log H/K| in {0.5,1,2}; real Vocoder pulse response at F0=20Hz; oracle = DFT log-magnitude vs sum c_m cos(m w~) within 0.01 Np at every grid frequency; distinct = distinct (length, alpha, cepstrum); non-trivial = shape != 0");
     rep.assume("cepstra off the lattice and |log H/K| > 2 are not explored; the digital filter does not depend on the nominal sampling rate, which is raised (8k..2M) only to lengthen T0 until the truncated tail is < 1e-7 of the peak");
     let mut cases: Vec<(usize, f64, f64, f64, Vec<f64>)> = Vec::new();
-    for &len in &LENS {
-        for &alpha in &ALPHAS {
+    let lens: Vec<usize> = if tier == Tier::Thorough { (2..=40).collect() } else { LENS.to_vec() };
+    let alphas: Vec<f64> = if tier == Tier::Thorough { vec![0.0, 0.1, 0.3, 0.42, 0.5, 0.55, 0.6] } else { ALPHAS.to_vec() };
+    for &len in &lens {
+        for &alpha in &alphas {
             for &c0 in &[-1.0, 0.0, 2.0] {
                 for &scale in &[0.5, 1.0, 2.0] {
                     for p in patterns(len) {
@@ -108,7 +110,7 @@ pub fn run(tier: Tier) -> i32 {
     let rates = Mutex::new(std::collections::BTreeMap::<usize, u64>::new());
     let grid = freq_grid(nfreq);
     let alpha0 = AtomicU64::new(0);
-    par_for(cases.len(), 4, |i| {
+    rep.par_for(cases.len(), 4, "C06 part 1", |i| {
         let (len, alpha, c0, scale, pat) = &cases[i];
         let mut c = pat.clone();
         let mx = shape_max(&c, *alpha);
@@ -162,7 +164,7 @@ pub fn run(tier: Tier) -> i32 {
         }
     });
     let w = worst.lock().unwrap().clone();
-    rep.note("bounds", json!({"lengths": LENS, "alphas": ALPHAS, "c0": [-1.0, 0.0, 2.0], "scales_np": [0.5, 1.0, 2.0], "frequencies": nfreq, "cases": cases.len(),
+    rep.note("bounds", json!({"lengths": lens, "alphas": alphas, "c0": [-1.0, 0.0, 2.0], "scales_np": [0.5, 1.0, 2.0], "frequencies": nfreq, "cases": cases.len(),
         "worst_error_np": w.0, "worst_case": w.1, "worst_tail": *worst_tail.lock().unwrap(), "rates_used": format!("{:?}", rates.lock().unwrap()), "alpha0_cases": alpha0.load(Ordering::Relaxed)}));
     rep.sample(json!({"vector_length": 2, "alpha": 0.0, "cepstrum": [-1.0, 0.5]}));
     rep.sample(json!({"vector_length": 4, "alpha": 0.42, "pattern": [0, 1, -1, 1], "scale_np": 2.0, "c0": 2.0}));
